@@ -323,6 +323,8 @@ func c15JSONDocs(thorough bool) []string {
 		}
 		out = r
 	}
+	// top-level keys that start with `$` or `.` next to their plain twins (a path names exactly one of them)
+	out = append(out, `{"$schema":"s","schema":1,"$":3,".hidden":4,"hidden":5}`, `{"$defs":{"name":1},"defs":{"name":2}}`)
 	return out
 }
 
@@ -331,6 +333,8 @@ var c15YAMLDocs = []string{
 	"# head\na: 1 # trailing\n# mid\nb: two\n", "a: {x: 1, y: [1, 2]}\nb: \"q\"\n", "a: |\n  block\n  text\nb: 2\n", "a: >\n  folded\n  text\nb: 2\n",
 	"a: 1\n---\nb: 2\n", "x: 0\n---\na: 1\nc: 3\n", "a: null\nb: ~\nc: true\nd: 1.5\ne: '---'\n", "- 1\n- two\n- [3, 4]\n", "a: 'single'\nb: \"double\"\nc: plain text\n",
 	"a: 1\n\nb: 2\n\n\nc: 3\n",
+	// CR LF line ends
+	"a: 1\r\nb:\r\n  - x\r\n  - y\r\nc: end\r\n",
 }
 
 var c15YAMLAnchors = []string{"a: &anc 1\nb: *anc\n", "base: &b\n  k: v\nuse: *b\nz: 1\n"}
